@@ -9,6 +9,7 @@
     round(x * 2^K) and judged by TLC (Trace_Lattice) against the exact rationals.
 """
 import math
+import random
 import os
 from fractions import Fraction
 
@@ -245,6 +246,89 @@ def drive(recipe):
             o["exc"] = type(e).__name__
         t["routes"].append(o)
     t["meta"]["impl_call"] = "; ".join(calls)[:600]
+    return t
+
+
+# ----------------------------------------------------------------------------- cells off the exact domain (Trace_LatticeF)
+def float_recipes(ctx):
+    """Cells given by arbitrary decimals: angles a few ten-thousandths of a degree to a few hundredths away from 90 / 120,
+    edges a hair apart, ordinary triclinic ones as controls."""
+    rng = random.Random(ctx.seed * 7561 + 3)
+    out = []
+    deltas = [1.0e-4, 4.0e-4, 8.0e-4, 3.0e-3, 2.0e-2, 5.0e-2, 0.3]
+    for i in range(ctx.pick(60, 900)):
+        lengths = [round(rng.uniform(3.0, 40.0), 4) for _ in range(3)]
+        if i % 5 == 0:
+            lengths[1] = lengths[0] + rng.choice([1e-7, 4e-7, 3e-6])        # two edges a hair apart
+        base = rng.choice([[90, 90, 90], [90, 90, 120], [90, 100 + rng.randint(0, 20), 90], [90, 90, 90],
+                           [rng.randint(70, 110), rng.randint(70, 110), rng.randint(70, 110)]])
+        angles = [float(b) for b in base]
+        for k in rng.sample(range(3), rng.randint(1, 3)):
+            angles[k] = angles[k] + rng.choice([-1, 1]) * rng.choice(deltas)
+        route = rng.choice(["params_deg", "params_rad", "triclinic_deg", "vectors", "vectors_rot", "respec_params"])
+        out.append({"kind": "F", "lengths": lengths, "angles_deg": angles, "route": route, "pts": rand_points(rng),
+                    "rot": [rng.gauss(0, 1) for _ in range(4)], "source": "decimal-parameters"})
+    return out
+
+
+def drive_float(recipe):
+    import warnings
+    import logging
+    import numpy as np
+    logging.disable(logging.CRITICAL)
+    from chmpy.crystal.unit_cell import UnitCell
+    lengths = [float(x) for x in recipe["lengths"]]
+    deg = [float(x) for x in recipe["angles_deg"]]
+    rad = [math.radians(x) for x in deg]
+    a, b, c = lengths
+    ca, cb, cg = (math.cos(x) for x in rad)
+    sg = math.sin(rad[2])
+    # the metric these parameters describe, and the standard embedding (a along x, b in the xy plane), both by this harness
+    ge = [[a * a, a * b * cg, a * c * cb], [0.0, b * b, b * c * ca], [0.0, 0.0, c * c]]
+    vol = a * b * c * math.sqrt(max(1e-300, 1 - ca * ca - cb * cb - cg * cg + 2 * ca * cb * cg))
+    D0 = np.array([[a, 0.0, 0.0], [b * cg, b * sg, 0.0], [c * cb, c * (ca - cb * cg) / sg, vol / (a * b * sg)]])
+    route = recipe["route"]
+    if route == "vectors_rot":
+        q = np.array(recipe["rot"], dtype=float)
+        q = q / np.linalg.norm(q)
+        w, x, y, z = q
+        Rm = np.array([[1 - 2 * (y * y + z * z), 2 * (x * y - z * w), 2 * (x * z + y * w)],
+                       [2 * (x * y + z * w), 1 - 2 * (x * x + z * z), 2 * (y * z - x * w)],
+                       [2 * (x * z - y * w), 2 * (y * z + x * w), 1 - 2 * (x * x + y * y)]])
+        D0 = D0 @ Rm.T
+    if route in ("vectors", "vectors_rot"):
+        G0 = D0 @ D0.T
+        ge = [[float(G0[0, 0]), float(G0[0, 1]), float(G0[0, 2])], [0.0, float(G0[1, 1]), float(G0[1, 2])], [0.0, 0.0, float(G0[2, 2])]]
+    cI = int(min(99999, math.ceil((a * b * c / vol) ** 2 * 1.001) + 1))
+    t = {"kind": "F", "n": NGRID, "pts": recipe["pts"], "cI": cI,
+         "ge": [[scaled_big(x, K) for x in row] for row in ge], "routes": [],
+         "meta": {"recipe": recipe, "source": recipe.get("source", "decimal-parameters"), "impl_call": "", "nontrivial": True}}
+    o = dict(EMPTY_OBS)
+    o.update({"name": route, "exc": "", "finite": True})
+    try:
+        with warnings.catch_warnings():
+            warnings.simplefilter("ignore")
+            if route == "params_deg":
+                uc = UnitCell.from_lengths_and_angles(lengths, deg, unit="degrees")
+            elif route == "params_rad":
+                uc = UnitCell.from_lengths_and_angles(lengths, rad)
+            elif route == "triclinic_deg":
+                uc = UnitCell.triclinic(a, b, c, *deg, unit="degrees")
+            elif route == "respec_params":
+                uc = UnitCell.cubic(7.0)
+                uc.volume(), uc.parameters
+                uc.set_lengths_and_angles(lengths, rad)
+            else:
+                uc = UnitCell(D0.copy())
+            t["meta"]["impl_call"] = "UnitCell via %s: lengths %r angles %r deg" % (route, lengths, deg)
+            obs = observe(uc, recipe["pts"])
+        if obs is None:
+            o["finite"] = False
+        else:
+            o.update(obs)
+    except Exception as e:      # an exception of the implementation is an observation
+        o["exc"] = type(e).__name__
+    t["routes"].append(o)
     return t
 
 
@@ -516,6 +600,10 @@ def run(ctx):
     recipes = make_recipes(ctx, emitted)
     traces = pool_map(drive, recipes)
     ctx.validate("trace/Trace_Lattice.tla", traces, consts=CONSTS, batch=1000, timeout=1400)
+    # cells off the exact domain: decimal parameters, angles next to 90 / 120 degrees, edges a hair apart
+    ftraces = pool_map(drive_float, float_recipes(ctx))
+    ctx.validate("trace/Trace_LatticeF.tla", ftraces, consts="  K = %d\n" % K, timeout=900)
+    ctx.notes["decimal_parameter_cells"] = len(ftraces)
     ctx.rule = ("exact integer cells (lattice L with entries -6..6 and det > 0, or a positive definite integer "
                 "Gram matrix; rational scale) built through every applicable construction route of the real "
                 "UnitCell; non-trivial = at least one non-right angle (an off-diagonal Gram entry is non-zero)")
@@ -541,7 +629,11 @@ def run(ctx):
 
 
 def replay(ctx, rec):
-    t = drive(rec["record"]["meta"]["recipe"])
+    recipe = rec["record"]["meta"]["recipe"]
+    if recipe.get("kind") == "F":
+        ctx.validate("trace/Trace_LatticeF.tla", [drive_float(recipe)], consts="  K = %d\n" % K)
+        return
+    t = drive(recipe)
     ctx.validate("trace/Trace_Lattice.tla", [t], consts=CONSTS)
 
 
